@@ -164,10 +164,10 @@ func (h *Session) findOrCreateHostWithLock(addr Addr) (host *Host, found bool) {
 
 func (h *Session) deleteHost(ip netip.Addr) {
 	if host := h.findIP(ip); host != nil {
-		if Logger.IsDebug() {
+		host.MACEntry.Row.Lock() // the host list is iterated under the row lock
+		if Logger.IsDebug() {    // host fields are updated under the row lock
 			Logger.Msg("delete host").IP("ip", ip).Struct(host).Write()
 		}
-		host.MACEntry.Row.Lock() // the host list is iterated under the row lock
 		host.MACEntry.unlink(host)
 		last := len(host.MACEntry.HostList) == 0
 		host.MACEntry.Row.Unlock()
